@@ -137,14 +137,14 @@ Proof.
       * intros g X. specialize (Id1 g X). discriminate.
       * intros g X. destruct (Id2 g X) as [Y _]. discriminate.
   - (* Notify *)
-    destruct (notif s) eqn:N; [|discriminate]. inv_step_tac. pose proof (Inn eq_refl) as Ev.
-    constructor; cbn; try assumption; try discriminate.
+    destruct (evt s) eqn:Ev; [|discriminate]. inv_step_tac.
+    constructor; cbn; rewrite ?Ev; try assumption; try discriminate.
     + split; assumption.
     + split; [exact Id1|]. intros g X.
       destruct (p s) as [| | | |[tg|]|] eqn:P; try (destruct (Id2 g X) as [Y _]; discriminate).
-      * destruct (tagkey s && conn_open s).
-        -- inversion X; subst. split; [reflexivity|exact Ev].
-        -- destruct (Id2 g X) as [Y Z0]. split; assumption.
+      destruct (notif s && tagkey s && conn_open s).
+      * inversion X; subst. split; reflexivity.
+      * destruct (Id2 g X) as [Y Z0]. split; assumption.
   - (* Answered *)
     destruct (p s) as [| | | |[tg|]|] eqn:P; try discriminate. inv_step_tac.
     constructor; cbn; rewrite ?P; try assumption; try (split; assumption).
@@ -205,9 +205,8 @@ Proof.
   - rewrite !orb_true_r in H. discriminate.
   - destruct (completed s); [discriminate|]. cbn in H. inversion H; subst. left. exact O.
   - destruct (completed s); [discriminate|]. inversion H; subst. left. exact O.
-  - destruct (notif s); [|discriminate]. inversion H; subst. cbn. left.
-    destruct (tagkey s && conn_open s); [|exact O]. destruct (proj2 (inv_disc s I) g O) as [P2 _].
-    rewrite P in P2. inversion P2; subst. reflexivity.
+  - inversion H; subst. cbn. left.
+    destruct (notif s && tagkey s && conn_open s); [|exact O]. reflexivity.
   - inversion H; subst. left. exact O.
   - right. right. reflexivity.
   - rewrite O in H. destruct (Z.eqb_spec g tag); [|discriminate]. subst. right. left. reflexivity.
@@ -229,7 +228,7 @@ Proof.
         - destruct ((now a <? deadline a) || evt a); [discriminate|]. inversion E; subst. cbn. auto.
         - destruct (evt a && negb (completed a)); [|discriminate]. inversion E; subst. auto.
         - destruct (completed a); [discriminate|]. inversion E; subst. auto.
-        - destruct (notif a); [|discriminate]. inversion E; subst. cbn. auto.
+        - destruct (evt a); [|discriminate]. inversion E; subst. cbn. auto.
         - inversion E; subst. auto.
         - destruct (owed a); [|discriminate]. destruct (z =? tag0); [|discriminate]. inversion E; subst. auto. }
       destruct X as [X1 X2]. destruct (IH a1 b X1 R) as [Y1 Y2]. split; [exact Y1|congruence]. }
